@@ -137,6 +137,9 @@ func Binning(l *List, st funcGen.Stack[Value]) (Value, error) {
 		return nil, err
 	}
 
+	if count < 0 {
+		return nil, errors.New("binning: count must not be negative")
+	}
 	b := newBinning(start, size, int(count))
 	for v, err := range l.Iterate(st) {
 		if err != nil {
@@ -204,6 +207,9 @@ func Binning2d(l *List, st funcGen.Stack[Value]) (Value, error) {
 		return nil, err
 	}
 
+	if xCount < 0 || yCount < 0 {
+		return nil, errors.New("binning2d: count must not be negative")
+	}
 	b := New2d(xStart, xSize, int(xCount), yStart, ySize, int(yCount))
 	for v, err := range l.Iterate(st) {
 		if err != nil {
